@@ -286,6 +286,9 @@ func (c19) Exec(t *testing.T, c *Case, replay []int) *Outcome {
 			})
 		}
 		blocked := s.Run(nil)
+		if s.Panic != "" {
+			fail("panic", s.Panic)
+		}
 		if s.Stuck {
 			fail("stuck", fmt.Sprintf("step budget %d exhausted with runnable tasks left", s.MaxSteps))
 		}
